@@ -92,7 +92,28 @@ def heap_write_keys(ex, stmts, st):
             if isinstance(n, ast.Attribute) and isinstance(n.ctx, ast.Store):
                 written_fields.add(n.attr)
 
+    def fresh_local(name):
+        """The local is (re)bound in the loop body only to newly allocated containers."""
+        found = False
+        for s_ in stmts:
+            for n_ in ast.walk(s_):
+                tg, val = None, None
+                if isinstance(n_, ast.Assign) and len(n_.targets) == 1:
+                    tg, val = n_.targets[0], n_.value
+                elif isinstance(n_, ast.AnnAssign):
+                    tg, val = n_.target, n_.value
+                if isinstance(tg, ast.Name) and tg.id == name:
+                    if isinstance(val, (ast.Dict, ast.List, ast.ListComp)) and not getattr(val, "keys", None):
+                        found = True
+                    else:
+                        return False
+                if isinstance(n_, (ast.For,)) and name in _target_names(n_.target):
+                    return False
+        return found
+
     def container_write(recv_node, n):
+        if isinstance(recv_node, ast.Name) and recv_node.id in assigned and fresh_local(recv_node.id):
+            return          # only objects allocated inside the iteration are written: nothing older changes
         if _loop_invariant_expr(recv_node, assigned, written_fields):
             try:
                 rv = ex.ev(recv_node, st.fork())
